@@ -124,7 +124,8 @@ VALID_BINOP_TYPES = {
                         IntType: NumType_any,
                         FloatType: NumType_any},
               IntType: {NumType: NumType_any,
-                        IntType: IntType_any,
+                        # A negative exponent makes this a float
+                        IntType: NumType_any,
                         FloatType: FloatType_any},
               FloatType: {NumType: NumType_any,
                           IntType: FloatType_any,
